@@ -153,6 +153,7 @@ def known_triggers(opts):
             av.add("categories")             # categorized utilization is written to the uncategorized variable: TracingError
         if has(opts, "tracing/actor"):
             av.add("maestro-comm")           # HOST_STATE value "start" never declared: TracingError
+            av.add("migrate-across-levels")  # ACTOR_STATE / ACTOR_LINK are only set up for the zone level of the first actors
     return av
 
 
@@ -261,6 +262,8 @@ def gen_s4u(rng, opts=(), tame=False, force=None):
                 ops.append("sleep %s" % _fmt(rng.choice([0.0, 0.5, 1.0])))
                 ops.append("resume %d" % t)
                 feat.add("suspend")
+            elif r < 0.82 and "migrate-across-levels" in avoid and layout != "flat":
+                ops.append("yield")
             elif r < 0.80:
                 ops.append("migrate %s" % rng.choice(hosts + vm_names))
                 feat.add("migrate")
